@@ -78,11 +78,11 @@ func (a *Agg) Add(idx int64, r *Result, wantSample bool) {
 			rec = &VioRec{Property: v.Property, Sig: v.Sig, FirstRun: idx, Detail: v.Detail, Step: v.Step, Case: r.Case}
 			a.Viol[key] = rec
 		} else if idx < rec.FirstRun {
-			if len(rec.More) < 4 {
+			if len(rec.More) < 15 {
 				rec.More = append(rec.More, rec.Case)
 			}
 			rec.FirstRun, rec.Detail, rec.Step, rec.Case = idx, v.Detail, v.Step, r.Case
-		} else if len(rec.More) < 4 {
+		} else if len(rec.More) < 15 {
 			rec.More = append(rec.More, r.Case)
 		}
 		rec.Count++
@@ -166,15 +166,15 @@ func (a *Agg) Merge(b *Agg) {
 		}
 		rec.Count += v.Count
 		if v.FirstRun < rec.FirstRun {
-			if len(rec.More) < 4 {
+			if len(rec.More) < 15 {
 				rec.More = append(rec.More, rec.Case)
 			}
 			rec.FirstRun, rec.Detail, rec.Step, rec.Case = v.FirstRun, v.Detail, v.Step, v.Case
-		} else if len(rec.More) < 4 {
+		} else if len(rec.More) < 15 {
 			rec.More = append(rec.More, v.Case)
 		}
 		for _, c := range v.More {
-			if len(rec.More) < 4 {
+			if len(rec.More) < 15 {
 				rec.More = append(rec.More, c)
 			}
 		}
